@@ -309,6 +309,37 @@ class LenProof:
         return False, "unrecognised length expression %s" % mir.show(L)
 
 
+def unchecked_slice_guarded(cx, crate, b, i):
+    from .. import sem
+    S = sem.Sem(cx, crate, inline=lambda p: p in crate.fns and "mir" in crate.fns[p] and not crate.fns[p].get("unsafe") and "{closure" not in p)
+    try:
+        sm = S.summarize(b.path)
+    except sem.SemLimit:
+        return False, False, False, mir.mk("opaque", "unsummarised")
+    P1 = mir.mk("param", 1)
+    own = mir.mk("field", P1, "partial_string")
+    okr = okrecv = guard = True
+    seen = 0
+    rng = mir.mk("opaque", "no unchecked slice on any path")
+    for leaf in sm.leaves:
+        for ev in leaf.trace:
+            t = ev[0]
+            if ev[2] == (b.path, i) and t[0] == "call" and last(t[1]).startswith("get_unchecked") and len(t[2]) == 2:
+                seen += 1
+                recv, rng = t[2]
+                r_ok = rng[0] == "agg" and rng[2] == "RangeFrom" and rng[3][0][1][0] == "param"
+                okr = okr and r_ok
+                okrecv = okrecv and recv == own
+                lenp = rng[3][0][1] if r_ok else None
+                g = any(v is True and a[0] == "binop" and a[1] == "Le" and a[2] == lenp
+                        and ((is_call(a[3], "len") and a[3][2] and a[3][2][0] == own) or (a[3][0] == "unop" and a[3][1] == "PtrMetadata" and a[3][2] == own))
+                        for (a, v) in leaf.assumed_before(ev))
+                guard = guard and g
+    if not seen:
+        return False, False, False, rng
+    return okr, okrecv, guard, rng
+
+
 def prove_site(cx, crate, b, i, t, adv):
     """Discharge the length obligation of the unsafe advance called in block i of b: in every leaf of the function's
     semantic summary that performs this call, under the assumptions made before it; falls back to the dominating
@@ -400,15 +431,9 @@ def check_who_len(cx, chk, crate, label):
                                   {"state": mir.show(pr.STATE), "length": mir.show(pr.L),
                                    "atoms": [(mir.show(e), str(tv)) for (e, tv, d) in pr.atoms]})
             elif last(fn["path"]).startswith("get_unchecked") and p in adv:
-                # inside the cursor-advance fn: range must be `length..` of the fn's own parameter,
-                # under a dominating `length > len -> panic` guard
-                rng = norm(b.expr_op(t["args"][1]))
-                recv = norm(b.expr_op(t["args"][0]))
-                okr = rng[0] == "agg" and rng[2] == "RangeFrom" and rng[3][0][1][0] == "param"
-                okrecv = recv[0] == "field" and recv[2] == "partial_string" and recv[1] == ("param", 1)
-                lenp = rng[3][0][1] if okr else None
-                guard = any(tv is False and e[0] == "binop" and e[1] == "Gt" and e[2] == lenp
-                            and is_call(e[3], "len") and e[3][2][0] == recv for (e, tv, d) in b.atoms(i))
+                # inside the cursor-advance fn: range must be `length..` of the fn's own parameter, and every summary path
+                # reaching it has passed `length <= len` (the guard may live in a local helper: helpers are inlined)
+                okr, okrecv, guard, rng = unchecked_slice_guarded(cx, crate, b, i)
                 if okr and okrecv and guard:
                     chk.ok("C04.who", tag, {"site": cx.site(b, i), "range": mir.show(rng), "guard": "length <= len"})
                 else:
@@ -467,69 +492,96 @@ def check_acc(cx, chk, crate):
         chk.violation("C04.acc", "ParseState::is_empty", "is_empty() is not s().is_empty(): %s" % mir.show(e), cx.site(b))
 
 
+def touches_cursor(b):
+    """Does body b build a ParseState, assign one of its cursor fields or borrow one mutably?"""
+    for i in sorted(b.reach):
+        for st in b.blocks[i]["stmts"]:
+            if st["k"] != "assign":
+                continue
+            rv = st["rv"]
+            if rv["k"] == "agg" and rv.get("agg") == "adt" and rv["adt"].endswith("::ParseState"):
+                return True
+            for pe in st["place"]["p"]:
+                if pe["k"] == "field" and (pe.get("owner") or "").endswith("::ParseState") and pe["name"] in ("partial_string", "start_index"):
+                    return True
+            if rv["k"] == "ref" and rv["mut"]:
+                for pe in rv["place"]["p"]:
+                    if pe["k"] == "field" and (pe.get("owner") or "").endswith("::ParseState") and pe["name"] in ("partial_string", "start_index"):
+                        return True
+    return False
+
+
 def check_cursor(cx, chk, crate, label):
-    """Every construction / field write of ParseState keeps start_index + len(partial_string) invariant."""
+    """Every function that builds a ParseState or touches its cursor fields returns (on every path of its semantic summary)
+    a state that is `new(s)`, the receiver's cursor unchanged, or the receiver advanced by one n in both cursor fields -
+    so start_index + len(partial_string) is invariant.  Struct literal, struct update and in-place mutation summarise alike."""
+    from .. import sem
+    from . import semspec
+    names = semspec.adt_fields(crate, "state::ParseState")
+    if not names or not {"partial_string", "start_index"} <= set(names):
+        chk.anchor_missing("C04.cursor", "%s: struct ParseState with partial_string / start_index" % label)
+        return
+    S = sem.Sem(cx, crate, inline=lambda p: p in crate.fns and "mir" in crate.fns[p] and not crate.fns[p].get("unsafe") and "{closure" not in p)
+    P1 = mir.mk("param", 1)
     n = 0
     for p, f in sorted(crate.fns.items()):
-        if "mir" not in f:
+        if "mir" not in f or "{closure" in p:
             continue
         b = cx.body(crate, p)
+        if not touches_cursor(b):
+            continue
+        n += 1
         sp = short(p)
-        for i in sorted(b.reach):
-            for st in b.blocks[i]["stmts"]:
-                if st["k"] != "assign":
+        tag = "%s %s" % (label, sp)
+        try:
+            sm = S.summarize(p)
+        except sem.SemLimit as ex:
+            chk.violation("C04.cursor", tag + " unsummarised", "a function touching the cursor fields could not be summarised: %s" % ex, cx.site(b))
+            continue
+        out_ty = f.get("output", "")
+        forms = set()
+        probs = []
+        for leaf in sm.leaves:
+            if leaf.kind != "return":
+                continue
+            vals = []
+            if "ParseState" in out_ty and not any(x in out_ty for x in ("ParseOk", "Result", "Option", "ChoiceHelper")):
+                vals.append(leaf.ret)
+            for k, w in leaf.writes.items():
+                vals.append(w)
+            if not vals:
+                probs.append("builds or modifies a ParseState that is neither returned nor the receiver: %s" % mir.show(leaf.ret)[:100])
+            for v in vals:
+                fs = semspec.fields(v, names)
+                ps, si = fs["partial_string"], fs["start_index"]
+                own_ps, own_si = mir.mk("field", P1, "partial_string"), mir.mk("field", P1, "start_index")
+                if si == ("const", "usize", 0) and ps[0] == "param" and fs.get("farthest_error") == sem.NONE:
+                    forms.add("new(s, 0, None)")
                     continue
-                rv = st["rv"]
-                if rv["k"] == "agg" and rv.get("agg") == "adt" and rv["adt"].endswith("::ParseState"):
-                    n += 1
-                    e = norm(b.expr_rv(rv))
-                    d = dict(e[3])
-                    tag = "%s %s builds ParseState" % (label, sp)
-                    ps, si, fe = d.get("partial_string"), d.get("start_index"), d.get("farthest_error")
-                    if si == ("const", "usize", 0) and ps[0] == "param" and fe[0] == "agg" and fe[2] == "None":
-                        chk.ok("C04.cursor", tag, {"fn": sp, "form": "new(s, 0, None)"})
-                        continue
-                    # advance forms
-                    okk = False
-                    amount = None
-                    if si[0] == "field" and si[2] == "0" and si[1][0] == "binop" and si[1][1] in ("AddWithOverflow", "Add"):
-                        a, c = si[1][2], si[1][3]
-                        if a == ("field", ("param", 1), "start_index"):
-                            amount = c
-                    if si[0] == "binop" and si[1] == "Add" and si[2] == ("field", ("param", 1), "start_index"):
-                        amount = si[3]
-                    if amount is not None and (is_call(ps, "get_unchecked") or is_call(ps, "index")) and len(ps[2]) == 2:
-                        recv, rng = ps[2]
-                        if recv == ("field", ("param", 1), "partial_string") and rng[0] == "agg" and rng[2] == "RangeFrom" \
-                                and rng[3][0][1] == amount and fe == ("field", ("param", 1), "farthest_error"):
-                            okk = True
-                    if okk:
-                        chk.ok("C04.cursor", tag, {"fn": sp, "form": "advance: partial_string[n..], start_index+n, same n=%s" % mir.show(amount)})
-                        continue
-                    # derived Clone: field-wise clone of self
-                    if "Clone" in p and all(is_call(v, "clone") or v[0] == "field" for v in (ps, si, fe)):
-                        def src(v, name):
-                            w = v[2][0] if is_call(v, "clone") else v
-                            return w == ("field", ("param", 1), name)
-                        if src(ps, "partial_string") and src(si, "start_index") and src(fe, "farthest_error"):
-                            chk.ok("C04.cursor", tag, {"fn": sp, "form": "field-wise clone"})
-                            continue
-                    chk.violation("C04.cursor", tag, "ParseState built in an unrecognised way (cursor invariant "
-                                  "start_index + len(partial_string) = input length not preserved by construction): %s" % mir.show(e),
-                                  cx.site(b, i))
-                # direct field writes
-                pl = st["place"]
-                for pe in pl["p"]:
-                    if pe["k"] == "field" and (pe.get("owner") or "").endswith("::ParseState") and pe["name"] in ("partial_string", "start_index"):
-                        chk.violation("C04.cursor", "%s %s writes %s" % (label, sp, pe["name"]),
-                                      "direct write to cursor field %s" % pe["name"], cx.site(b, i))
-                # mutable borrows of cursor fields
-                if rv["k"] == "ref" and rv["mut"]:
-                    for pe in rv["place"]["p"]:
-                        if pe["k"] == "field" and (pe.get("owner") or "").endswith("::ParseState") and pe["name"] in ("partial_string", "start_index"):
-                            chk.violation("C04.cursor", "%s %s &mut %s" % (label, sp, pe["name"]),
-                                          "mutable borrow of cursor field %s" % pe["name"], cx.site(b, i))
-    chk.floor("C04.cursor", "%s ParseState constructions" % label, n, 2)
+                if si == own_si and ps == own_ps:
+                    forms.add("cursor unchanged")
+                    continue
+                amount = None
+                if si[0] == "binop" and si[1] == "Add" and si[2] == own_si:
+                    amount = si[3]
+                elif si[0] == "binop" and si[1] == "Add" and si[3] == own_si:
+                    amount = si[2]
+                okk = False
+                if amount is not None and is_call(ps, "get_unchecked", "index") and len(ps[2]) == 2:
+                    recv, rng = ps[2]
+                    if recv == own_ps and rng[0] == "agg" and rng[2] == "RangeFrom" and rng[3][0][1] == amount:
+                        okk = all(fs[n_] == mir.mk("field", P1, n_) for n_ in names if n_ not in ("partial_string", "start_index"))
+                if okk:
+                    forms.add("advance: partial_string[n..], start_index+n, same n=%s" % mir.show(amount)[:40])
+                    continue
+                probs.append("returns a state with start_index=%s partial_string=%s" % (mir.show(si)[:80], mir.show(ps)[:120]))
+        if probs:
+            for pr in sorted(set(probs))[:2]:
+                chk.violation("C04.cursor", tag + (" builds ParseState" if "returns" in pr or "builds" in pr else ""),
+                              "cursor invariant start_index + len(partial_string) = input length is not preserved by %s: %s" % (sp, pr), cx.site(b))
+        else:
+            chk.ok("C04.cursor", tag, {"fn": sp, "forms": sorted(forms), "leaves": len(sm.leaves)})
+    chk.floor("C04.cursor", "%s functions touching the cursor" % label, n, 2)
 
 
 PANIC_CALLEES = ("panic", "panic_fmt", "panic_display", "panic_explicit", "begin_panic", "unreachable_display",
@@ -666,6 +718,19 @@ def check_panic_runtime(cx, chk, crate, label):
             if key in RUNTIME_PANIC_TABLE:
                 chk.ok("C04.panic", tag, {"fn": key[0], "kind": kind, "reason": RUNTIME_PANIC_TABLE[key]})
                 continue
+            # a private helper: the site belongs to its callers (an extracted guard keeps its justification)
+            if crate.fns[p].get("vis") != "Public":
+                callers = set()
+                for q in fns:
+                    qb = cx.body(crate, q)
+                    for _, tq in qb.calls():
+                        fq = tq["func"]
+                        if not fq.get("indirect") and (fq.get("resolved") or fq["path"]) == p:
+                            callers.add(q)
+                if callers and all((fn_key(q), kind) in RUNTIME_PANIC_TABLE for q in callers):
+                    chk.ok("C04.panic", tag, {"fn": key[0], "kind": kind, "private_helper_of": sorted(fn_key(q) for q in callers),
+                                              "reason": "; ".join(sorted({RUNTIME_PANIC_TABLE[(fn_key(q), kind)] for q in callers}))[:300]})
+                    continue
             chk.violation("C04.panic", tag, "panic-capable construct (%s) in a runtime function reachable from "
                           "generated parsers, with no recognised guard and no justification entry" % kind,
                           cx.site(b, i))
